@@ -416,6 +416,7 @@ impl<'a> Gen<'a> {
         };
         let seg = last_segment(&n);
         let mut default_name = None;
+        let mut force_as = false;
         let (ty, kind) = match &k {
             Kind::Func(s) => (ImportTy::Func(*s), k.clone()),
             Kind::Inst(id, es) => {
@@ -426,8 +427,17 @@ impl<'a> Gen<'a> {
                 });
                 match by_path {
                     Some((pkg, ver, iface)) if self.r.chance(3, 4) => {
-                        default_name = id.clone();
-                        (ImportTy::Path(pkg, ver, vec![iface]), k.clone())
+                        if !es.is_empty() && self.r.chance(1, 5) {
+                            // a longer path projecting into the interface: `ns:pkg/iface/item`
+                            // (the path string is not a valid extern name, so `as` is needed)
+                            let (en, ek) = es[self.r.below(es.len())].clone();
+                            force_as = true;
+                            let item = if self.r.chance(1, 6) { "nope".to_string() } else { en };
+                            (ImportTy::Path(pkg, ver, vec![iface, item]), ek)
+                        } else {
+                            default_name = id.clone();
+                            (ImportTy::Path(pkg, ver, vec![iface]), k.clone())
+                        }
                     }
                     _ => {
                         let fs: Vec<(String, usize)> = es.iter().filter_map(|(n, k)| if let Kind::Func(s) = k { Some((n.clone(), *s)) } else { None }).collect();
@@ -445,6 +455,9 @@ impl<'a> Gen<'a> {
             3 => Some("other-name".to_string()),
             _ => None,
         };
+        if force_as && as_.is_none() {
+            as_ = Some(format!("proj{}", self.import_names.len()));
+        }
         let mut name = as_.clone().or(default_name.clone()).unwrap_or(id.clone());
         if self.import_names.contains(&name) && self.r.chance(9, 10) {
             as_ = Some(format!("alt{}", self.import_names.len()));
